@@ -1,0 +1,37 @@
+// Copyright 2022 The Tari Project
+// SPDX-License-Identifier: BSD-3-Clause
+
+//! Verification hooks (cargo feature `verif-hooks`, off by default)
+//!
+//! Emits events around the lazily initialised static generator tables so that an external model checker can own the
+//! scheduling of their first use. With no sink installed every call is a no-op.
+
+use once_cell::sync::OnceCell;
+
+/// An event around one of the lazily initialised static cells (identified by a small index)
+#[derive(Copy, Clone, Debug, PartialEq, Eq)]
+pub enum Event {
+    /// A thread is about to call `get_or_init` on the cell
+    CellEnter(u8),
+    /// The cell's initialiser started running on this thread
+    InitBegin(u8),
+    /// The cell's initialiser is about to compute the given element
+    InitElem(u8, usize),
+    /// The cell's initialiser is about to return
+    InitEnd(u8),
+}
+
+static SINK: OnceCell<fn(Event)> = OnceCell::new();
+
+/// Install the event sink (first caller wins)
+pub fn set_sink(sink: fn(Event)) -> bool {
+    SINK.set(sink).is_ok()
+}
+
+/// Emit an event to the sink, if any
+#[inline]
+pub fn emit(event: Event) {
+    if let Some(sink) = SINK.get() {
+        sink(event);
+    }
+}
